@@ -281,6 +281,38 @@ example :
     plainContent (.child (inB ['R']) [] kids .nil) = true ∧ treeWriterDefined tblNsEnv {} m (inB ['R']) [] kids = true := by
   decide +kernel
 
+/-! ## Both writers -/
+
+/-- The assumption about lxml, made explicit: what `LxmlEventWriter` ends up with —
+`ElementTreeContentHandler` builds an element tree from the SAX calls, `etree.tostring` prints it,
+a parser reads it back (`lxmlRead`) — is the tree those calls denote (`saxTree`: names already
+expanded, `startPrefixMapping` calls carry no content).  Not proved: lxml is not modelled; the
+correspondence op `writer.lxml` samples exactly this statement on the real `LxmlEventWriter`. -/
+def LxmlBuildsSaxTree (lxmlRead : List Call → Option Node) : Prop :=
+  ∀ calls t, saxTree calls = some t → lxmlRead calls = some t
+
+/-- **writers_denote_same_tree (partial)**: under the hypotheses of `write_wellformed_partial`
+(any values, QNames included) and the assumption `LxmlBuildsSaxTree`, the document of the native
+writer and the document of the lxml writer denote the same tree: both writers run the same
+`EventHandler`, whose calls are the same without indentation (`handlerRun … true` = `handlerRun … false`),
+`XMLGenerator`'s text denotes the tree of those calls (L2), lxml's tree is that tree by assumption. -/
+theorem writers_denote_same_tree_partial (lxmlRead : List Call → Option Node) (hl : LxmlBuildsSaxTree lxmlRead)
+    (cfg : Cfg) (hcfg : plainCfg cfg = true)
+    (m : List (Pfx × Str)) (hm : userMapOK tblNsEnv m = true)
+    (q : Str) (attrs : List (Str × Val)) (kids : Content)
+    (hok : contentOK tblNsEnv (userDefault m) (.child q attrs kids .nil) = true)
+    (hshape : shapeOK true kids = true) :
+    ∃ toks calls t, nativeWrite tblNsEnv cfg m (document q attrs kids) = .ok toks
+      ∧ handlerRun tblNsEnv cfg false m (document q attrs kids) = (calls, none)
+      ∧ infoset toks = some t ∧ lxmlRead calls = some t := by
+  obtain ⟨cs, hcs⟩ := Proofs.Shape.docCalls_defined tblNsEnv (Proofs.MapInv.envOK_sound _ tables_ok) cfg hcfg m hm q attrs kids hok hshape
+  obtain ⟨toks, node, h1, h2, h3⟩ := document_main tblNsEnv tables_ok cfg hcfg m hm q attrs kids hok cs hcs
+  exact ⟨toks, cs, node, h1,
+    handlerRun_document tblNsEnv cfg m q attrs kids cs (Proofs.UserMap.userMapOK_valid tblNsEnv m hm) hcs, h2, hl cs node h3⟩
+
+/-- the assumption is satisfiable (by the reading it names) -/
+example : LxmlBuildsSaxTree saxTree := fun _ _ h => h
+
 /-! ## Prefix generation -/
 
 /-- **generate_prefix never overwrites**: for EVERY prefix map and every namespace,
